@@ -120,6 +120,13 @@ def user_data_parsers(case, note):
     cfg = make_config(allow_plugins=plugins, every_pel=True)
     before_mods = set(PL.plugin_modules_loaded())
     with PL.PluginFixtures({'udparsers': allmods}) as fx:
+        if plugins and len(data) % 3 == 0 and not any(isinstance(b, dict) and 'sequence' in b
+                                                       for b in case['ud'].values()):
+            must_decode(data, make_config(allow_plugins=False, every_pel=True), oracle='C18.decode')
+            if fx.calls:
+                raise Violation('C18.plugins-off', 'parser modules ran during a decode with plug-ins disabled: %r'
+                                % fx.calls[:2], sig='C18.plugins-off:ran')
+            note.label('disabled-then-enabled')
         o = must_decode(data, cfg, oracle='C18.decode')
         calls = fx.calls
         loaded = set(PL.plugin_modules_loaded()) - before_mods
@@ -265,7 +272,9 @@ def src_case(draw):
             b = {'sequence': [b, {'kind': 'json', 'value': ['later call']}]}
         spec_co[creator + 'callouts'] = b
     return {'pel': pel, 'route': route, 'src': spec_src, 'callouts': spec_co,
-            'plugins': draw(st.integers(0, 4)) != 0}
+            'plugins': draw(st.integers(0, 4)) != 0,
+            # first decode the PEL with the opposite plug-in setting in the same process (nothing is reset)
+            'prior_opposite': draw(st.integers(0, 2)) == 0}
 
 
 def expected_src_module(pel, s):
@@ -286,6 +295,14 @@ def src_and_callout_parsers(case, note):
     spec = {'srcparsers': case['src'], 'calloutparsers': case['callouts']}
     before_mods = set(PL.plugin_modules_loaded())
     with PL.PluginFixtures(spec) as fx:
+        if case.get('prior_opposite') and plugins and not any(
+                isinstance(b, dict) and 'sequence' in b for b in list(case['src'].values()) + list(case['callouts'].values())):
+            # plug-ins were disabled for an earlier decode in this process; enabling them now must work
+            must_decode(data, make_config(allow_plugins=False, every_pel=True), oracle='C18.decode')
+            if fx.calls:
+                raise Violation('C18.plugins-off', 'parser modules ran during a decode with plug-ins disabled: %r'
+                                % fx.calls[:2], sig='C18.plugins-off:ran')
+            note.label('disabled-then-enabled')
         o = must_decode(data, cfg, oracle='C18.decode')
         calls = fx.calls
         loaded = set(PL.plugin_modules_loaded()) - before_mods
@@ -407,7 +424,9 @@ def m2c00_case(draw):
         buf = draw(DR.trace_buffer([{'hash': 32403714, 'fmt': '', 'loc': ''}], max_entries=3))
         data = DR.enc_trace_buffer(buf)[:draw(st.integers(1, 400))]
     else:
-        data = draw(S.payload(120))
+        data = draw(st.one_of(S.payload(120), S.payload(120),
+                              st.integers(1, 64).map(lambda n: bytes(n)),            # all zero
+                              st.integers(1, 64).map(lambda n: b'\xff' * n)))
     return {'sub': sub, 'ver': ver, 'data': data, 'e2e': draw(st.integers(0, 3)) == 0}
 
 
